@@ -1,7 +1,7 @@
 """C01 - MD4/MD5/SHA-0/SHA-1/SHA-2 equal the standards for every message and bit length."""
 import hashlib
 from mc.engine import Sub, InternalError
-from mc.common import ramp, expander, DATA
+from mc.common import ramp, expander, DATA, zero_words
 from mc.refs import mdsha
 
 ALGS = ['md4', 'md5', 'sha0', 'sha1', 'sha224', 'sha256', 'sha384', 'sha512', 'sha512_224', 'sha512_256']
@@ -37,7 +37,8 @@ def reused(a):
 
 def data(kind, n):
     return {'ramp': lambda: ramp(n, 13, n), 'exp': lambda: expander(n, 1), 'ff': lambda: b'\xff' * n,
-            'zero': lambda: b'\x00' * n, 'exp2': lambda: expander(n, 2), 'exp3': lambda: expander(n, 3)}[kind]()
+            'zero': lambda: b'\x00' * n, 'exp2': lambda: expander(n, 2), 'exp3': lambda: expander(n, 3),
+            'zw4': lambda: zero_words(n, 4, 64), 'zw8': lambda: zero_words(n, 8, 128)}[kind]()
 
 
 def ref(a, m, L=None):
@@ -100,6 +101,8 @@ def pts_bytes(tier):
             for d in ('zero', 'ff', 'exp', 'exp2', 'exp3'):
                 pts.append((a, n, d))
         # long messages: 5, 8, 16, 17, 33 (thorough also 64, 65, 129) blocks, just below / at / above the block boundary
+        for n in (B // 8 - 1, B // 8, 2 * B // 8 + 3, 3 * B // 8):
+            pts.append((a, n, 'zw4' if B == 512 else 'zw8'))
         for k in (5, 8, 16, 17, 33) + ((64, 65, 129) if tier == 'thorough' else ()):
             for dn in (-1, 0, 1) + ((-(cs // 8) - 1, -(cs // 8)) if tier == 'thorough' else ()):
                 pts.append((a, k * B // 8 + dn, 'exp'))
